@@ -92,7 +92,7 @@ add("C06.handling_error","VH_c06_handling_error",SRV,sc+["server/c06.go","server
 for two in (0,1):
     add("C06.recvloop_%s"%("two" if two else "one"),"VH_c06_recvloop",SRV,sc+["server/c06.go","server/c06cat.go"],{"two":two},{"two":two},merge=UM,expect_reach=["install","withdraw","reset"],bounds="the real recvMessageloop reading one UPDATE (base + %s catalogue fault(s)) from a scripted transport; eBGP/iBGP x revised error handling on/off"%("two" if two else "one"))
 add("C02.server_history","VH_c02_server_history",SRV,sc+["server/c02.go"],{"params":{"steps":2},"unwind":2200},{"params":{"steps":3},"unwind":2200},expect_reach=["installed","looped"],bounds="real BgpServer.handleFSMMessage, one eBGP peer, one prefix, every history of 2 (quick) / 3 UPDATEs over {clean announce (symbolic AS), looped announce, withdraw}")
-add("C01.server_fanout","VH_c01_server_fanout",SRV,sc+["server/c01.go"],{"params":{"steps":2},"unwind":2200},{"params":{"steps":3},"unwind":2200},expect_reach=["advertised","empty"],bounds="real BgpServer.handleFSMMessage; 4 established peers (eBGP source, iBGP source, eBGP target, iBGP target), one prefix, every history of 2 (quick) / 3 UPDATEs (source, announce with symbolic AS / withdraw); observed at each peer's outgoing queue")
+add("C01.server_fanout","VH_c01_server_fanout",SRV,sc+["server/c01.go"],{"params":{"steps":2},"unwind":2200},{"params":{"steps":3},"unwind":2200},expect_reach=["advertised","empty","reflected"],bounds="real BgpServer.handleFSMMessage; 5 established peers (eBGP source, iBGP source, eBGP target, iBGP target, route-reflector client), one prefix, every history of 2 (quick) / 3 UPDATEs (source, announce with symbolic AS / withdraw); observed at each peer's outgoing queue")
 add("C01.server_addpath","VH_c01_server_addpath",SRV,sc+["server/c01.go"],{"params":{"steps":4,"sources":2,"sendmax":1},"unwind":2200},{"params":{"steps":5,"sources":3,"sendmax":2},"unwind":2200,"harness_s":3000},expect_reach=["advertised","held_back"],bounds="real BgpServer.handleFSMMessage; `sources` eBGP sources and one ADD-PATH-send target with send-max `sendmax`, one prefix, every history of `steps` announce/withdraw events")
 C08B="real fsm.stateChange(Established)/open2Cap: "
 add("C08.timers","VH_c08_negotiate",SRV,sc+["server/c08.go"],{"tuples":0,"aspect":1},{"tuples":0,"aspect":1},expect_reach=["end"],bounds=C08B+"local hold 0|3..65535, local keepalive 0..65535, remote hold 0|3..65535 (floating point decided in the SMT FloatingPoint theory)")
